@@ -20,7 +20,6 @@ def classify(case):
 
 SPEC = dict(
     prop="C15",
-    disabled="under construction",
     # only main.go + holdconsts.go are compiled, so another builder's half-written translator cannot break this one
     gens=[dict(name="HoldConsts", cmd=["go", "run", "-C", "translators", "main.go", "holdconsts.go", "holdconsts"],
                what="maxPostponement, maxPostponementBuffer, maxOtherHoldDuration, maxDuration; both gating call sites "
